@@ -138,6 +138,12 @@ func (v Val) ToGo() any {
 			out[kv.K] = kv.V.ToGo()
 		}
 		return out
+	case "sl": // []string, the way url.Values delivers a repeated parameter
+		out := make([]string, len(v.L))
+		for i := range v.L {
+			out[i] = v.L[i].S
+		}
+		return out
 	case "x":
 		return Exotic(v.S)
 	}
@@ -171,6 +177,12 @@ func (v Val) String() string {
 			parts[i] = v.M[i].K + ":" + v.M[i].V.String()
 		}
 		return "{" + strings.Join(parts, ",") + "}"
+	case "sl":
+		parts := make([]string, len(v.L))
+		for i := range v.L {
+			parts[i] = v.L[i].String()
+		}
+		return "sl[" + strings.Join(parts, ",") + "]"
 	case "x":
 		return "x:" + v.S
 	}
